@@ -184,6 +184,10 @@ def run_shard(shard):
                 go(tmpl.format(ch), None)
         # characters no UTF-8 text holds but a Python str can (lone surrogates, as os.fsdecode yields for undecodable file names), and
         # noncharacters: placed where the source text is taken over verbatim or measured (byte columns) *before* a later node
+        for s in gen_xonsh.MATCH_MACROS:
+            for v in (s, s + "$(ls)\n", "x = 1\n" + s + "assert w, 'm'\n", "if q:\n    " + s.replace("\n", "\n    ") + "\n", s + s):
+                go(v, None)
+                acc.count("class_match_macro")
         for ch in ODD_CHARS:
             for tmpl in ODD_TEMPLATES:
                 go(tmpl.replace("@@", ch), None)
